@@ -545,6 +545,9 @@ var c11Findings = []c11Finding{
 	{"go-duplicate-exception-type", "go", "valid", "throws (1: E a, 2: E b): duplicate case *E in the generated type switch"},
 	{"java-container-constant-reference", "java", "valid", "const list<i32> b = a (a constant of container type referring to another constant): Java generator panics (interface conversion)"},
 	{"go-service-import-through-typedef", "go", "valid", "a service method whose argument type is a local typedef of a container with an include-qualified element (typedef list<base.thing> things): the Go service file uses base.Thing in the expanded read/write code but imports are computed from the type names as written: undefined: base"},
+	{"target-reserved-word-identifier", "py:asyncio", "valid", "an identifier that is a reserved word of the target (def, lambda, class, None in Python; class, new, int, final in Java; func, type, range as argument / method / file / namespace / prefix-variable name in Go) is neither rejected (Apache Thrift: Cannot use reserved language keyword) nor escaped: the emitted file does not parse"},
+	{"generated-name-collision", "go", "valid", "an identifier that equals a local, a receiver or a method of the generated code (argument args / result, field Read / Write / String, throws field success, Python argument ctx / self) collides with it: no new variables on left side of :=, field and method with the same name"},
+	{"underscore-only-identifier", "go", "valid", "the identifier _ (valid by the grammar and in Thrift) is emitted as the blank identifier / an empty camel-cased name: p._ undefined, invalid package name _"},
 	{"unchecked-semantic-errors", "json", "invalid", "duplicate struct/enum/typedef/constant/field names, constant values of the wrong type, unknown extends, duplicate ids in throws are not validated: exit 0 (or a recovered panic) for invalid IDL"},
 }
 
